@@ -1,0 +1,21 @@
+//go:build verif
+
+package opsgenie
+
+// Contracts for govc (contract-based deductive verification). Comment-only file.
+
+// C20: the OpsGenie integration sends its requests in order and stops at the first one that fails: a transport failure
+// is recoverable, a refused response fails the delivery with the retrier's verdict - a later request never masks an
+// earlier failure; the delivery succeeds only when every request was accepted.
+//@ func (*Notifier).Notify
+//@   props C20
+//@   nosafe
+//@   abstract
+//@   after call notify.NewErrorWithReason assume res0 != nil
+//@   ensures [a-failure-building-the-requests-is-reported] ret2("Notifier).createRequests") != nil ==> result1 == ret2("Notifier).createRequests") && result0 == ret1("Notifier).createRequests") && !called("Client).Do")
+//@   ensures [success-only-when-every-request-was-accepted] result1 == nil ==> ret2("Notifier).createRequests") == nil && count("Client).Do") == len(ret("Notifier).createRequests")) && count("Retrier).Check") == count("Client).Do")
+//@             && (called("Client).Do") ==> ret1("Client).Do") == nil) && (called("Retrier).Check") ==> ret1("Retrier).Check") == nil)
+//@   loop 1 earlyexit (called("Client).Do") && ret1("Client).Do") != nil) || (called("Retrier).Check") && ret1("Retrier).Check") != nil)
+//@   loop 1 invariant rangeindex < len(requests) && requests == ret("Notifier).createRequests") && ret2("Notifier).createRequests") == nil && count("Client).Do") == rangeindex + 1 && count("Retrier).Check") == rangeindex + 1
+//@   loop 1 invariant (called("Client).Do") ==> ret1("Client).Do") == nil) && (called("Retrier).Check") ==> ret1("Retrier).Check") == nil)
+//@   noeffect Notifier).createRequests Client).Do Retrier).Check notify.Drain notify.NewErrorWithReason notify.GetFailureReasonFromStatusCode
